@@ -177,6 +177,7 @@ fn base_case(prop: &str, seed: u64, run: u64, opts: &Options, mode: Mode, files:
         path_form: PathForm::Explicit,
         path_args: vec![],
         list_poison: None,
+        symlinks: vec![],
         bogus_paths: vec![],
         list_via_pipe: false,
     }
@@ -402,6 +403,7 @@ pub fn generate_c16(seed: u64, run: u64, corpus: &Corpus, tier: Tier, stats: &mu
     let form = if file.exists { form } else { PathForm::Explicit };
     let path_args = path_args_for(&mut rng, form, &[path.clone()]);
     let list_via_pipe = form == PathForm::FilesFrom && rng.chance(1, 3);
+    let as_symlink = form != PathForm::Explicit && file.exists && rng.chance(1, 8);
     *stats.by_mode.entry(format!("path_form:{}", form.name())).or_insert(0) += 1;
     // fault-free: every mode against the stdin reference
     for mode in [Mode::Files, Mode::Check, Mode::Stdout, Mode::StdinCheck] {
@@ -411,6 +413,9 @@ pub fn generate_c16(seed: u64, run: u64, corpus: &Corpus, tier: Tier, stats: &mu
             c.path_form = form;
             c.path_args = path_args.clone();
             c.list_via_pipe = list_via_pipe;
+            if as_symlink {
+                c.symlinks = vec![path.clone()];
+            }
         }
         cases.push(c);
     }
@@ -1089,6 +1094,7 @@ pub fn generate_c18(seed: u64, run: u64, corpus: &Corpus, tier: Tier, stats: &mu
         let dir = rng.below(3);
         let name = if rng.chance(1, 6) { "same".to_string() } else { format!("u{i}") };
         let prefix = if form == PathForm::Explicit { "simfs:/" } else { "root/" };
+        let name = if i > 0 && rng.chance(1, 10) { name.to_uppercase() } else { name };
         // names with characters that mean something to a glob matcher, named literally
         let name = if form != PathForm::Glob && rng.chance(1, 12) {
             format!("{name}{}", *rng.pick(&["[1]", "[old]", " copy", "(2)", "{x}"]))
@@ -1103,7 +1109,8 @@ pub fn generate_c18(seed: u64, run: u64, corpus: &Corpus, tier: Tier, stats: &mu
             _ => *rng.pick(&["pas", "pas", "pas", "dpr", "dpk"]),
         };
         let mut path = format!("{prefix}d{dir}/{name}.{ext}");
-        while case.files.iter().any(|f| f.path.eq_ignore_ascii_case(&path)) {
+        // (names that differ only in letter case are different files here and welcome)
+        while case.files.iter().any(|f| f.path == path) {
             path = format!("{prefix}d{dir}/{name}_{i}.{ext}");
         }
         // near-collisions on purpose
@@ -1220,6 +1227,13 @@ persistent: false,
     case.path_form = form;
     if form == PathForm::FilesFrom && rng.chance(1, 3) {
         case.list_via_pipe = true;
+    }
+    if form != PathForm::Explicit {
+        for f in &case.files {
+            if f.exists && rng.chance(1, 10) {
+                case.symlinks.push(f.path.clone());
+            }
+        }
     }
     let all_paths: Vec<String> = case.files.iter().map(|f| f.path.clone()).collect();
     case.path_args = path_args_for(&mut rng, form, &all_paths);
